@@ -4,12 +4,12 @@ package main
 
 import (
 	"fmt"
-	"sync"
 	"go/constant"
 	"go/token"
 	"go/types"
 	"math/big"
 	"strings"
+	"sync"
 
 	"golang.org/x/tools/go/ssa"
 )
@@ -117,18 +117,18 @@ type Event struct {
 }
 
 type State struct {
-	store  map[interface{}]Value
-	regs   map[ssa.Value]Value
-	pc     []*Term
-	obls   []*Oblig
-	events []*Event
-	prev   *ssa.BasicBlock
-	trace  []int
-	defers []ClosureV
-	galloc *Term // ghost allocation counter (bytes), 64-bit saturating is not needed: costs are bounded by assumption
-	ghost  map[string]*Term
-	qfacts []*QFact
-	dead   bool
+	store         map[interface{}]Value
+	regs          map[ssa.Value]Value
+	pc            []*Term
+	obls          []*Oblig
+	events        []*Event
+	prev          *ssa.BasicBlock
+	trace         []int
+	defers        []ClosureV
+	galloc        *Term // ghost allocation counter (bytes), 64-bit saturating is not needed: costs are bounded by assumption
+	ghost         map[string]*Term
+	qfacts        []*QFact
+	dead          bool
 	paramOverride map[string]Value
 	branches      []*Term // branch decisions only (subset of pc), for the relational coverage VCs
 }
@@ -240,37 +240,37 @@ type Exec struct {
 	mode  string // hostile | wellbehaved
 	cutAt map[*ssa.BasicBlock]bool
 	// entry values of params (shared by all paths of this function)
-	params   map[string]Value
-	paramObj map[string]*Object
-	inputReg map[*Region]bool
-	unsup    []string
-	freshTag string
-	maxPaths int
-	npaths   int
-	specHook SpecHook
-	handlerHook func(st *State, ev *Event, args []Value)
-	cells      map[string]*ssa.Alloc
-	allocs     []*ssa.Alloc
-	mutable    map[*ssa.Alloc]bool
-	entryFinal *State
-	entryHeap  *State
-	sconsts    []int64
-	retMain    map[int64]bool
-	retSub     map[int64]bool
-	simVariant string
-	simLimit   int64
-	simFast    bool
-	simNum     bool
-	simOut     bool
-	simEnd     *Term
-	relMode    bool
-	allocMode  bool
+	params       map[string]Value
+	paramObj     map[string]*Object
+	inputReg     map[*Region]bool
+	unsup        []string
+	freshTag     string
+	maxPaths     int
+	npaths       int
+	specHook     SpecHook
+	handlerHook  func(st *State, ev *Event, args []Value)
+	cells        map[string]*ssa.Alloc
+	allocs       []*ssa.Alloc
+	mutable      map[*ssa.Alloc]bool
+	entryFinal   *State
+	entryHeap    *State
+	sconsts      []int64
+	retMain      map[int64]bool
+	retSub       map[int64]bool
+	simVariant   string
+	simLimit     int64
+	simFast      bool
+	simNum       bool
+	simOut       bool
+	simEnd       *Term
+	relMode      bool
+	allocMode    bool
 	sharedTables map[string]bool
 	sharedLens   map[string]int64
 	sharedRegs   map[string]*Region
 	sharedRegMu  sync.Mutex
 	// equivalence proofs: callees are the same deterministic (uninterpreted) function on both sides
-	equivCalls map[string]string // callee key -> canonical name
+	equivCalls   map[string]string // callee key -> canonical name
 	structTables map[string]*TableV
 }
 
